@@ -236,23 +236,30 @@ func RunReplays(repo, root string, jobs []ReplayJob, race bool, timeout time.Dur
 		sc := bufio.NewScanner(bytes.NewReader(buf.Bytes()))
 		sc.Buffer(make([]byte, 1<<20), 1<<26)
 		n := 0
+		// a race report belongs to the script that was running when the detector printed it: the scripts run one after
+		// the other in one process and each prints its result line when it ends
+		var raceText strings.Builder
+		inRace := false
 		for sc.Scan() {
 			line := sc.Text()
+			if strings.Contains(line, "WARNING: DATA RACE") {
+				inRace = true
+			}
+			if inRace && raceText.Len() < 1500 {
+				raceText.WriteString(line + "\n")
+			}
 			if i := strings.Index(line, "VERIF-REPLAY-RESULT "); i >= 0 {
 				rr := &ReplayResult{}
 				if err := json.Unmarshal([]byte(line[i+len("VERIF-REPLAY-RESULT "):]), rr); err == nil {
 					out[rr.File] = rr
 					n++
+					if inRace {
+						rr.Failures = append(rr.Failures, "DATA RACE")
+						rr.Stack = trunc(raceText.String(), 1500)
+					}
 				}
-			}
-		}
-		if strings.Contains(buf.String(), "WARNING: DATA RACE") {
-			for _, j := range byDir[dkey] {
-				if rr := out[j.Path]; rr != nil {
-					rr.Failures = append(rr.Failures, "DATA RACE")
-					i := strings.Index(buf.String(), "WARNING: DATA RACE")
-					rr.Stack = trunc(buf.String()[i:], 1500)
-				}
+				inRace = false
+				raceText.Reset()
 			}
 		}
 		if n < len(byDir[dkey]) {
